@@ -43,8 +43,17 @@ class Obj:
         self.kw = kw
 
 
+_CB_SERIAL = [0]
+
+
 def _cb(data):
+    # the callback is the same object for every node; it numbers its calls and leaves an extra attribute on every
+    # second node only: what it does for one node must not show on another
+    _CB_SERIAL[0] += 1
     data["_cb"] = True
+    data["_cb_n"] = _CB_SERIAL[0]
+    if _CB_SERIAL[0] % 2:
+        data["_cb_odd"] = _CB_SERIAL[0]
 
 
 def mk_attr(spec):
@@ -68,7 +77,10 @@ def mk_attr(spec):
     if k == "sparse":
         return tg.SparseBoolRandomizer(probability=spec[1])
     if k == "sample":
-        return tg.SampleRandomizer(spec[1], counts=spec[2], probability=spec[3])
+        items = spec[1]
+        if spec[2] is None and len(items) % 2 == 0:
+            items = tuple(items)  # "sample_list: Sequence": a tuple is one
+        return tg.SampleRandomizer(items, counts=spec[2], probability=spec[3])
     if k == "text":
         return tg.TextRandomizer(spec[1], probability=spec[2])
     if k == "blind":
@@ -270,9 +282,14 @@ def validate(rec, case, tree, which):
                     rec.fail("kind", [which, where, c.kind])
                 exp_keys = {k_ for k_ in m if not k_.startswith(":")}
                 if ":callback" in m:
-                    exp_keys.add("_cb")
+                    exp_keys.update(["_cb", "_cb_n"])
                     if attrs.get("_cb") is not True:
                         rec.fail("callback-not-applied", [which, where])
+                    n_call = attrs.get("_cb_n")
+                    if isinstance(n_call, int) and n_call % 2:
+                        exp_keys.add("_cb_odd")
+                    if ("_cb_odd" in attrs) != (isinstance(n_call, int) and n_call % 2 == 1) or attrs.get("_cb_odd", n_call) != n_call:
+                        rec.fail("callback:effect-of-another-node's-call", [which, where, n_call, attrs.get("_cb_odd")])
                 extra = set(attrs) - exp_keys
                 if extra:
                     rec.fail("attr:unexpected", [which, where, sorted(extra)])
@@ -447,14 +464,18 @@ def hyp_cases(draw, tier):
     types = None
     if marker_in_types or draw(st.booleans()):
         types = {}
-        if draw(st.booleans()):
-            types["*"] = draw(spec_dict(with_count=draw(st.sampled_from([False, False, True])), max_attrs=2))
+        star = draw(spec_dict(with_count=draw(st.sampled_from([False, False, True])), max_attrs=2)) if draw(st.booleans()) else None
+        star_last = draw(st.booleans())  # the order of the entries of a dict carries no meaning
+        if star is not None and not star_last:
+            types["*"] = star
         for t in tnames:
             if (not typed and marker_in_types) or draw(st.booleans()):
                 s = draw(spec_dict(with_count=False, max_attrs=2))
                 if not typed and marker_in_types:
                     s["_t"] = ["const", t]
                 types[t] = s
+        if star is not None and star_last:
+            types["*"] = star
     return {
         "name": draw(st.sampled_from([None, "fmea", "r t"])),
         "typed": typed,
